@@ -243,6 +243,15 @@ let () =
            | ROk _ when small && post = "ERR" ->
                report lineno true "genesis go-refuses-registry-smaller-than-SLOTS_PER_EPOCH (documented API limit; the Spec builds a state)"
            | _ -> judge lineno res post "genesis");
+          (* the implementation model of GenesisFromEth1 (Beacon/Impl/Genesis.v, proved equal to the Spec) against Go *)
+          (match run_genesis_impl env (fun _ -> true) (fun _ -> true) (bytes_of_string (string_of_hex hash)) (n_of_decimal time) (bytes_of_string d) false with
+           | GenOk b ->
+               (match Hashtbl.find_opt states post with
+                | Some (_, gbytes) -> report lineno (string_of_bytes b = gbytes) "genesis-impl same-post-state-as-impl-model"
+                | None -> report lineno false ("genesis-impl impl-model-accepts go-" ^ String.lowercase_ascii post))
+           | GenErr -> report lineno (post = "ERR") "genesis-impl impl-model-errors"
+           | GenPanic -> report lineno false "genesis-impl impl-model-panics"
+           | GenBadInput -> report lineno false "genesis-impl impl-model-cannot-decode");
           (match res with
            | ROk (_, _, mroot) ->
                List.iter (fun t ->
@@ -299,6 +308,15 @@ let () =
                      (match ev.ev_sync_next with Some l -> expect "sync_next" (Hashtbl.find_opt tbl "sync_next") (ints l) | None -> ());
                      report lineno (!bad = []) (Printf.sprintf "epc-%s %s" label (String.concat ";" (List.rev !bad))) in
                    check live "live"; check fresh "fresh")
+      | "kickstart" :: hash :: time :: vfile :: post :: _ktags when want ->
+          let g2 = string_of_hex "93e02b6052719f607dacd3a088274f65596bd0d09920b61ab5da61bbdc7f5049334cf11213945d57e5ac7d055d042b7e024aa2b2f08f0a91260805272dc51051c6e47ad4fa403b02b4510b647ae3d1770bac0326a805bbefd48056c8c121bdb8" in
+          (match run_kickstart_impl env (fun _ -> true) (fun _ -> true) (bytes_of_string g2) (bytes_of_string (string_of_hex hash)) (n_of_decimal time) (bytes_of_string (blob vfile)) with
+           | GenOk b ->
+               (match Hashtbl.find_opt states post with
+                | Some (_, gbytes) -> report lineno (string_of_bytes b = gbytes) "kickstart-impl same-post-state-as-impl-model"
+                | None -> report lineno false ("kickstart-impl impl-model-accepts go-" ^ String.lowercase_ascii post))
+           | GenErr -> report lineno (post = "ERR") "kickstart-impl impl-model-errors"
+           | _ -> report lineno false "kickstart-impl impl-model-panics-or-cannot-decode")
       | "engine" :: tl :: proot :: vhs :: parent :: _etags2 ->
           (* what zrnt showed the engine for the preceding transition vs what the Spec shows *)
           (match !last_trans, !engine_seen with
